@@ -1,0 +1,303 @@
+//go:build verif
+
+package base
+
+// Contracts for core/stat/base (properties C08, C09). Arithmetic in contracts is over the integers (no wrap).
+
+//@ spec func startOf(t, L) = t - t % L
+//@ spec func slotOf(t, L, n) = (t / L) % n
+
+//@ func calculateStartTime(now, L) r
+//@   props C08
+//@   requires L > 0
+//@   ensures[def] r == startOf(now, L)
+//@   ensures[aligned] r % L == 0 && r <= now && now < r + L
+//@   modifies nothing
+
+//@ func (la *LeapArray) calculateTimeIdx(now) r
+//@   props C08
+//@   requires la != nil && la.bucketLengthInMs > 0 && la.array != nil && la.array.length > 0 && now < 4611686018427387904
+//@   ensures[def] r == slotOf(now, la.bucketLengthInMs, la.array.length)
+//@   ensures[range] 0 <= r && r < la.array.length
+//@   modifies nothing
+
+//@ func (ww *BucketWrap) isTimeInBucket(now, L) r
+//@   props C08
+//@   requires ww != nil && ww.BucketStart < 4611686018427387904
+//@   ensures[def] r <==> (ww.BucketStart <= now && now < ww.BucketStart + L)
+//@   modifies nothing
+
+// a bucket is outside the array's horizon: it starts in the future or more than one interval ago
+//@ func (la *LeapArray) isBucketDeprecated(now, ww) r
+//@   props C08
+//@   requires la != nil && ww != nil && now < 4611686018427387904 && ww.BucketStart < 4611686018427387904
+//@   ensures[def] r <==> (ww.BucketStart > now || now - ww.BucketStart > la.intervalInMs)
+//@   modifies nothing
+
+// the window of a view (interval Iv) over an array with bucket length L, ending at the bucket of timeMs
+//@ func (m *SlidingWindowMetric) getBucketStartRange(timeMs) (start, end)
+//@   props C08
+//@   requires m != nil && m.real != nil && m.real.data.bucketLengthInMs > 0 && timeMs < 4611686018427387904
+//@   let L = m.real.data.bucketLengthInMs
+//@   case regular: startOf(timeMs, L) + L >= m.intervalInMs
+//@   case near-zero: startOf(timeMs, L) + L < m.intervalInMs
+//@   ensures[end] end == startOf(timeMs, L)
+//@   ensures[start] start == max(0, end - m.intervalInMs + L)
+//@   modifies nothing
+//@   witness timeMs = timeMs
+//@   witness L = m.real.data.bucketLengthInMs
+//@   witness Iv = m.intervalInMs
+//@   replay statbase_startrange
+
+// ---- MetricBucket: one bucket's counters. Amounts and counters stay below 2^62 (no int64 overflow).
+//@ spec func small(v) = 0 - 4611686018427387904 < v && v < 4611686018427387904
+//@ spec func validEvent(e) = 0 <= e && e < base.MetricEventTotal
+
+//@ func (mb *MetricBucket) Add(event, count)
+//@   props C08, C09
+//@   requires mb != nil && small(count) && (validEvent(event) ==> small(mb.counter[event]))
+//@   ensures[counted] validEvent(event) ==> mb.counter[event] == old(mb.counter[event]) + count
+//@   ensures[others] forall e Int :: e != event || !validEvent(event) ==> mb.counter[e] == old(mb.counter[e])
+//@   ensures[min-rt] mb.minRt == (event == base.MetricEventRt && count < old(mb.minRt) ? count : old(mb.minRt))
+//@   modifies mb.counter, mb.minRt
+
+//@ func (mb *MetricBucket) Get(event) r
+//@   props C08, C09
+//@   requires mb != nil
+//@   ensures[def] r == (validEvent(event) ? mb.counter[event] : 0)
+//@   modifies nothing
+
+//@ func (mb *MetricBucket) reset()
+//@   props C08, C09
+//@   requires mb != nil
+//@   ensures[zeroed] forall e Int :: validEvent(e) ==> mb.counter[e] == 0
+//@   ensures[defaults] mb.minRt == base.DefaultStatisticMaxRt && mb.maxConcurrency == 0
+//@   modifies mb.counter, mb.minRt, mb.maxConcurrency
+//@   loop 1:
+//@     invariant[prefix-zero] 0 <= i && i <= base.MetricEventTotal && (forall e Int :: 0 <= e && e < i ==> mb.counter[e] == 0)
+//@     invariant[frame] frame(mb.counter)
+
+//@ func (mb *MetricBucket) UpdateConcurrency(concurrency)
+//@   props C08
+//@   requires mb != nil
+//@   ensures[max] mb.maxConcurrency == max(old(mb.maxConcurrency), concurrency)
+//@   modifies mb.maxConcurrency
+
+//@ func (mb *MetricBucket) MinRt() r
+//@   props C08
+//@   requires mb != nil
+//@   ensures r == mb.minRt
+//@   modifies nothing
+
+//@ func (mb *MetricBucket) MaxConcurrency() r
+//@   props C08
+//@   requires mb != nil
+//@   ensures r == mb.maxConcurrency
+//@   modifies nothing
+
+// ---- LeapArray reads.  D9: the unsafe pointer arithmetic of AtomicBucketWrapArray.get/compareAndSet is replaced by
+// the assumed contract "slot idx of data".
+//@ func (aa *AtomicBucketWrapArray) get(idx) r
+//@   assumed
+//@   requires aa != nil
+//@   ensures (0 <= idx && idx < aa.length ==> r == aa.data[idx]) && (!(0 <= idx && idx < aa.length) ==> r == nil)
+//@   modifies nothing
+
+//@ spec rec countTrue(a (Array Int Bool), k Int) Int = k <= 0 ? 0 : countTrue(a, k - 1) + (sel(a, k - 1) ? 1 : 0)
+//@ spec func arrayOK(la) = la != nil && la.array != nil && la.array.length >= 0 && la.array.length == len(la.array.data) && allocated(base(la.array.data)) && (forall i Int :: 0 <= i && i < la.array.length && la.array.data[i] != nil ==> la.array.data[i].BucketStart < 4611686018427387904)
+//@ spec func live(la, now, ww) = ww != nil && !(ww.BucketStart > now || now - ww.BucketStart > la.intervalInMs)
+
+// the result lists, in slot order, exactly the live buckets whose start satisfies the predicate:
+// slot i (if picked) is at position countTrue(pick, i), and the length is countTrue(pick, length)
+//@ func (la *LeapArray) ValuesConditional(now, predicate) r
+//@   props C08
+//@   requires arrayOK(la) && now < 4611686018427387904
+//@   let pick = seqof(i, 0 <= i && i < la.array.length && now > 0 && live(la, now, la.array.data[i]) && predicate(la.array.data[i].BucketStart))
+//@   ensures[time-zero] now == 0 ==> len(r) == 0
+//@   ensures[length] now > 0 ==> len(r) == countTrue(pick, la.array.length)
+//@   ensures[placed] forall i Int :: 0 <= i && i < la.array.length && sel(pick, i) ==> r[countTrue(pick, i)] == la.array.data[i] && 0 <= countTrue(pick, i) && countTrue(pick, i) < len(r)
+//@   ensures[fresh] len(r) == 0 || fresh(base(r))
+//@   ensures[bounded-length] len(r) <= la.array.length
+//@   ensures[from-data] forall j Int :: 0 <= j && j < len(r) ==> (exists i Int :: 0 <= i && i < la.array.length && sel(pick, i) && r[j] == la.array.data[i])
+//@   modifies nothing
+//@   loop 1:
+//@     invariant[idx] 0 <= i && i <= la.array.length && len(ret) <= i
+//@     invariant[from-data] forall j Int :: 0 <= j && j < len(ret) ==> (exists k Int :: 0 <= k && k < i && sel(pick, k) && ret[j] == la.array.data[k])
+//@     invariant[length] len(ret) == countTrue(pick, i) && fresh(base(ret))
+//@     invariant[positions] forall k Int :: 0 <= k && k < i && sel(pick, k) ==> 0 <= countTrue(pick, k) && countTrue(pick, k) < len(ret)
+//@     invariant[placed] forall k Int :: 0 <= k && k < i && sel(pick, k) ==> ret[countTrue(pick, k)] == la.array.data[k]
+//@     invariant[frame] frame()
+
+//@ func (la *LeapArray) valuesWithTime(now) r
+//@   props C08
+//@   requires arrayOK(la) && now < 4611686018427387904
+//@   let pick = seqof(i, 0 <= i && i < la.array.length && now > 0 && live(la, now, la.array.data[i]))
+//@   ensures[time-zero] now == 0 ==> len(r) == 0
+//@   ensures[length] now > 0 ==> len(r) == countTrue(pick, la.array.length)
+//@   ensures[placed] forall i Int :: 0 <= i && i < la.array.length && sel(pick, i) ==> r[countTrue(pick, i)] == la.array.data[i] && 0 <= countTrue(pick, i) && countTrue(pick, i) < len(r)
+//@   ensures[fresh] len(r) == 0 || fresh(base(r))
+//@   ensures[bounded-length] len(r) <= la.array.length
+//@   ensures[from-data] forall j Int :: 0 <= j && j < len(r) ==> (exists i Int :: 0 <= i && i < la.array.length && sel(pick, i) && r[j] == la.array.data[i])
+//@   modifies nothing
+//@   loop 1:
+//@     invariant[idx] 0 <= i && i <= la.array.length && len(ret) <= i
+//@     invariant[from-data] forall j Int :: 0 <= j && j < len(ret) ==> (exists k Int :: 0 <= k && k < i && sel(pick, k) && ret[j] == la.array.data[k])
+//@     invariant[length] len(ret) == countTrue(pick, i) && fresh(base(ret))
+//@     invariant[positions] forall k Int :: 0 <= k && k < i && sel(pick, k) ==> 0 <= countTrue(pick, k) && countTrue(pick, k) < len(ret)
+//@     invariant[placed] forall k Int :: 0 <= k && k < i && sel(pick, k) ==> ret[countTrue(pick, k)] == la.array.data[k]
+//@     invariant[frame] frame()
+
+// ---- P1 selection: a view reads exactly the live buckets whose start lies in its bucket-aligned window
+//@ spec func inWindow(m, now, s) = max(0, startOf(now, m.real.data.bucketLengthInMs) - m.intervalInMs + m.real.data.bucketLengthInMs) <= s && s <= startOf(now, m.real.data.bucketLengthInMs)
+//@ func (m *SlidingWindowMetric) getSatisfiedBuckets(now) r
+//@   props C08
+//@   requires m != nil && m.real != nil && arrayOK(m.real.data) && m.real.data.bucketLengthInMs > 0 && now < 4611686018427387904
+//@   let la = m.real.data
+//@   let pick = seqof(i, 0 <= i && i < la.array.length && now > 0 && live(la, now, la.array.data[i]) && inWindow(m, now, la.array.data[i].BucketStart))
+//@   ensures[time-zero] now == 0 ==> len(r) == 0
+//@   ensures[length] now > 0 ==> len(r) == countTrue(pick, la.array.length)
+//@   ensures[placed] forall i Int :: 0 <= i && i < la.array.length && sel(pick, i) ==> r[countTrue(pick, i)] == la.array.data[i] && 0 <= countTrue(pick, i) && countTrue(pick, i) < len(r)
+//@   ensures[bounded-length] len(r) <= la.array.length
+//@   ensures[from-data] forall j Int :: 0 <= j && j < len(r) ==> (exists i Int :: 0 <= i && i < la.array.length && sel(pick, i) && r[j] == la.array.data[i])
+//@   ensures[pick-def] forall i Int :: 0 <= i && i < la.array.length ==> (sel(pick, i) <==> (now > 0 && live(la, now, la.array.data[i]) && inWindow(m, now, la.array.data[i].BucketStart)))
+//@   modifies nothing
+
+// ---- P4 aggregation
+//@ spec rec seqsum(a (Array Int Int), k Int) Int = k <= 0 ? 0 : seqsum(a, k - 1) + sel(a, k - 1)
+//@ spec func bucketOf(ww) = cast(dynptr(stored(ww.Value)), MetricBucket)
+//@ spec func isBucket(ww) = ww != nil && typeis(stored(ww.Value), "*core/stat/base.MetricBucket") && bucketOf(ww) != nil && allocated(bucketOf(ww))
+//@ spec func bounded(v) = 0 - 1099511627776 <= v && v <= 1099511627776
+
+//@ func (m *SlidingWindowMetric) count(event, values) r
+//@   props C08
+//@   requires validEvent(event) && len(values) <= 65536
+//@   requires forall j Int :: 0 <= j && j < len(values) ==> isBucket(values[j]) && bounded(bucketOf(values[j]).counter[event])
+//@   let vals = seqof(j, bucketOf(values[j]).counter[event])
+//@   ensures[sum] r == seqsum(vals, len(values))
+//@   modifies nothing
+//@   loop 1:
+//@     invariant[partial-sum] ret == seqsum(vals, #i) && 0 - #i * 1099511627776 <= ret && ret <= #i * 1099511627776
+
+// ---- compaction: summing over the compacted list equals summing over the picked slots (proved by induction)
+//@ spec rec isum(p (Array Int Bool), v (Array Int Int), k Int) Int = k <= 0 ? 0 : isum(p, v, k - 1) + (sel(p, k - 1) ? sel(v, k - 1) : 0)
+//@ ilemma compaction {C08} (pick (Array Int Bool), vr (Array Int Int), vd (Array Int Int), n Int) induction i
+//@   requires forall k Int :: 0 <= k && k < n && sel(pick, k) ==> sel(vr, countTrue(pick, k)) == sel(vd, k)
+//@   ensures 0 <= countTrue(pick, i) && (i <= n ==> seqsum(vr, countTrue(pick, i)) == isum(pick, vd, i))
+
+// a view's sum is the sum, over the array's slots, of the counters of the live buckets in the aligned window
+//@ spec func bucketsOK(la, event) = forall i Int :: 0 <= i && i < la.array.length && la.array.data[i] != nil ==> isBucket(la.array.data[i]) && bounded(bucketOf(la.array.data[i]).counter[event])
+//@ func (m *SlidingWindowMetric) getSumWithTime(now, event) r
+//@   props C08
+//@   requires m != nil && m.real != nil && arrayOK(m.real.data) && m.real.data.bucketLengthInMs > 0 && now < 4611686018427387904
+//@   requires validEvent(event) && m.real.data.array.length <= 65536 && bucketsOK(m.real.data, event)
+//@   let la = m.real.data
+//@   let pick = seqof(i, 0 <= i && i < la.array.length && now > 0 && live(la, now, la.array.data[i]) && inWindow(m, now, la.array.data[i].BucketStart))
+//@   let slotVals = seqof(i, bucketOf(la.array.data[i]).counter[event])
+//@   use compaction(pick, seqof(j, bucketOf(satisfiedBuckets[j]).counter[event]), slotVals, la.array.length)
+//@   ensures[time-zero] now == 0 ==> r == 0
+//@   ensures[window-sum] now > 0 ==> r == isum(pick, slotVals, la.array.length)
+//@   modifies nothing
+
+//@ spec func viewOK(m) = m != nil && m.real != nil && arrayOK(m.real.data) && m.real.data.bucketLengthInMs > 0 && m.real.data.array.length <= 65536 && m.intervalInMs > 0
+
+//@ func (m *SlidingWindowMetric) getQPSWithTime(now, event) r
+//@   props C08
+//@   requires viewOK(m) && now < 4611686018427387904 && validEvent(event) && bucketsOK(m.real.data, event)
+//@   let la = m.real.data
+//@   let pick = seqof(i, 0 <= i && i < la.array.length && now > 0 && live(la, now, la.array.data[i]) && inWindow(m, now, la.array.data[i].BucketStart))
+//@   let slotVals = seqof(i, bucketOf(la.array.data[i]).counter[event])
+//@   ensures[per-second] now > 0 ==> r == R(isum(pick, slotVals, la.array.length)) / (R(m.intervalInMs) / 1000.0)
+//@   modifies nothing
+
+// the previous-window rate is the rate of the window ending one view bucket earlier
+//@ func (m *SlidingWindowMetric) GetPreviousQPS(event) r
+//@   props C08
+//@   requires viewOK(m) && validEvent(event) && bucketsOK(m.real.data, event) && clock_ms >= m.bucketLengthInMs
+//@   ensures[one-bucket-earlier] clock_ms - m.bucketLengthInMs > 0 ==> r == R(isum(seqof(i, 0 <= i && i < m.real.data.array.length && live(m.real.data, clock_ms - m.bucketLengthInMs, m.real.data.array.data[i]) && inWindow(m, clock_ms - m.bucketLengthInMs, m.real.data.array.data[i].BucketStart)), seqof(i, bucketOf(m.real.data.array.data[i]).counter[event]), m.real.data.array.length)) / (R(m.intervalInMs) / 1000.0)
+//@   modifies nothing
+
+// maximum of one event over the buckets of the window (0 if none)
+//@ func (m *SlidingWindowMetric) GetMaxOfSingleBucket(event) r
+//@   props C08
+//@   requires viewOK(m) && validEvent(event) && bucketsOK(m.real.data, event)
+//@   ensures[upper] forall i Int :: 0 <= i && i < m.real.data.array.length && clock_ms > 0 && live(m.real.data, clock_ms, m.real.data.array.data[i]) && inWindow(m, clock_ms, m.real.data.array.data[i].BucketStart) ==> bucketOf(m.real.data.array.data[i]).counter[event] <= r
+//@   ensures[attained] r == 0 || (exists i Int :: 0 <= i && i < m.real.data.array.length && live(m.real.data, clock_ms, m.real.data.array.data[i]) && inWindow(m, clock_ms, m.real.data.array.data[i].BucketStart) && bucketOf(m.real.data.array.data[i]).counter[event] == r)
+//@   modifies nothing
+//@   loop 1:
+//@     invariant[upper] forall j Int :: 0 <= j && j < #i ==> bucketOf(satisfiedBuckets[j]).counter[event] <= curMax
+//@     invariant[attained] curMax == 0 || (exists j Int :: 0 <= j && j < #i && bucketOf(satisfiedBuckets[j]).counter[event] == curMax)
+
+// ---- P2 placement (one thread): mapping a time to its slot and refreshing stale slots
+//@ func (aa *AtomicBucketWrapArray) compareAndSet(idx, except, update) ok
+//@   assumed
+//@   requires aa != nil
+//@   ensures ok <==> (0 <= idx && idx < aa.length && old(aa.data[idx]) == except)
+//@   ensures forall j Int :: aa.data[j] == ((ok && j == idx) ? update : old(aa.data[j]))
+//@   modifies elems(aa.data)
+
+// unsafe CAS on the embedded sync.Mutex word: may or may not acquire, no effect on contract-visible state
+//@ func (tl *mutex) TryLock() r
+//@   assumed
+//@   modifies nothing
+
+//@ iface BucketGenerator.NewEmptyBucket() r
+//@   ensures typeis(r, "*core/stat/base.MetricBucket") && dynptr(r) != 0 && fresh(dynptr(r))
+//@   ensures forall e Int :: validEvent(e) ==> cast(dynptr(r), MetricBucket).counter[e] == 0
+//@   modifies nothing
+
+//@ iface BucketGenerator.ResetBucketTo(bucket, startTime) r
+//@   requires isBucket(bucket)
+//@   ensures r == bucket && bucket.BucketStart == startTime && isBucket(bucket) && stored(bucket.Value) == old(stored(bucket.Value))
+//@   ensures forall e Int :: validEvent(e) ==> bucketOf(bucket).counter[e] == 0
+//@   modifies bucket.BucketStart, fields(bucketOf(bucket))
+
+//@ func (bla *BucketLeapArray) ResetBucketTo(bw, startTime) r
+//@   props C08, C09
+//@   requires isBucket(bw)
+//@   ensures[start] r == bw && bw.BucketStart == startTime && stored(bw.Value) == old(stored(bw.Value))
+//@   ensures[zeroed] forall e Int :: validEvent(e) ==> bucketOf(bw).counter[e] == 0
+//@   ensures[defaults] bucketOf(bw).minRt == base.DefaultStatisticMaxRt && bucketOf(bw).maxConcurrency == 0
+//@   modifies bw.BucketStart, fields(bucketOf(bw))
+
+//@ spec func geomOK(la) = arrayOK(la) && la.bucketLengthInMs > 0 && la.array.length > 0 && la.sampleCount > 0
+//@ spec func slotBucketsOK(la) = (forall i Int :: 0 <= i && i < la.array.length ==> allocated(la.array.data[i])) && (forall i Int :: 0 <= i && i < la.array.length && la.array.data[i] != nil ==> isBucket(la.array.data[i])) && (forall i Int :: forall j Int :: 0 <= i && i < j && j < la.array.length && la.array.data[i] != nil ==> la.array.data[i] != la.array.data[j])
+
+//@ func (la *LeapArray) currentBucketOfTime(now, bg) (w, err)
+//@   props C08, C09
+//@   requires geomOK(la) && slotBucketsOK(la) && now < 4611686018427387904
+//@   let idx = slotOf(now, la.bucketLengthInMs, la.array.length)
+//@   let start = startOf(now, la.bucketLengthInMs)
+//@   let cur = la.array.data[idx]
+//@   ensures[time-zero] now == 0 ==> w == nil && err != nil && frame()
+//@   ensures[slot] now > 0 && err == nil ==> w != nil && w == la.array.data[idx] && (w.BucketStart == start || (la.sampleCount == 1 && w.BucketStart > start))
+//@   ensures[is-bucket] now > 0 && err == nil ==> isBucket(w) && (cur != nil ==> stored(w.Value) == old(stored(cur.Value)))
+//@   ensures[kept] now > 0 && err == nil && cur != nil && old(cur.BucketStart) >= start ==> w == cur && frame()
+//@   ensures[refreshed] now > 0 && err == nil && cur != nil && old(cur.BucketStart) < start ==> w == cur && w.BucketStart == start && (forall e Int :: validEvent(e) ==> bucketOf(w).counter[e] == 0)
+//@   ensures[behind] now > 0 && err != nil ==> w == nil && cur != nil && old(cur.BucketStart) > start && la.sampleCount != 1 && frame()
+//@   ensures[other-slots] forall i Int :: 0 <= i && i < la.array.length && i != idx ==> la.array.data[i] == old(la.array.data[i])
+//@   ensures[other-starts] forall i Int :: 0 <= i && i < la.array.length && i != idx && la.array.data[i] != nil ==> la.array.data[i].BucketStart == old(la.array.data[i].BucketStart)
+//@   ensures[other-values] forall i Int :: 0 <= i && i < la.array.length && i != idx && la.array.data[i] != nil ==> stored(la.array.data[i].Value) == old(stored(la.array.data[i].Value))
+//@   modifies elems(la.array.data), cur.BucketStart, fields(bucketOf(cur))
+//@   loop 1:
+//@     invariant[untouched] frame()
+
+// two times that share a slot but not a bucket are at least one whole array interval apart:
+// a refresh only ever destroys data that is older than the array can retain
+//@ lemma slot-reuse-distance {C08}: forall t1 Int :: forall t2 Int :: forall L Int :: forall n Int :: 0 <= t1 && 0 <= t2 && L > 0 && n > 0 && slotOf(t1, L, n) == slotOf(t2, L, n) && startOf(t1, L) < startOf(t2, L) ==> startOf(t2, L) - startOf(t1, L) >= n * L
+
+//@ spec func bucketsDistinct(la) = forall i Int :: forall j Int :: 0 <= i && i < j && j < la.array.length && la.array.data[i] != nil && la.array.data[j] != nil ==> bucketOf(la.array.data[i]) != bucketOf(la.array.data[j])
+
+// recording at time now (not behind the slot's current bucket) credits exactly `count` to exactly the bucket that
+// starts at startOf(now), refreshing the slot first if it still holds an older bucket; nothing else changes
+//@ func (bla *BucketLeapArray) addCountWithTime(now, event, count)
+//@   props C08, C09
+//@   requires bla != nil && geomOK(bla.data) && slotBucketsOK(bla.data) && bucketsDistinct(bla.data) && 0 < now && now < 4611686018427387904 && validEvent(event) && small(count)
+//@   let la = bla.data
+//@   let idx = slotOf(now, la.bucketLengthInMs, la.array.length)
+//@   let start = startOf(now, la.bucketLengthInMs)
+//@   let cur = la.array.data[idx]
+//@   requires cur != nil && cur.BucketStart <= start && (cur.BucketStart == start ==> small(bucketOf(cur).counter[event]))
+//@   ensures[placed] la.array.data[idx] == cur && cur.BucketStart == start
+//@   ensures[credited] bucketOf(cur).counter[event] == (old(cur.BucketStart) == start ? old(bucketOf(cur).counter[event]) : 0) + count
+//@   ensures[same-bucket-others] forall e Int :: validEvent(e) && e != event ==> bucketOf(cur).counter[e] == (old(cur.BucketStart) == start ? old(bucketOf(cur).counter[e]) : 0)
+//@   ensures[other-slots] forall i Int :: 0 <= i && i < la.array.length && i != idx && la.array.data[i] != nil ==> la.array.data[i] == old(la.array.data[i]) && la.array.data[i].BucketStart == old(la.array.data[i].BucketStart) && (forall e Int :: validEvent(e) ==> bucketOf(la.array.data[i]).counter[e] == old(bucketOf(la.array.data[i]).counter[e]))
